@@ -33,6 +33,13 @@ class HarnessError(Exception):
     """Something is wrong with the harness, not with gwf (exit 2)."""
 
 
+class SubjectFailure(Exception):
+    """The code under test failed where the harness needs it to work: a gwf command on a valid project exited
+    non-zero during set-up, the worker pool did not come up, its event loop never became quiescent.  On the
+    unchanged tree none of this happens; when it does, it is reported as a violation (with the replay), not as a
+    harness error."""
+
+
 class Violation:
     __slots__ = ("sig", "msg")
 
@@ -176,6 +183,12 @@ def _run_one(mod, known, stats, case):
                 signal.setitimer(signal.ITIMER_REAL, 0)
     except CaseTimeout:
         res = None
+    except SubjectFailure as exc:
+        if TIMED_OUT[0]:
+            res = None
+        else:
+            res = CaseResult([Violation({"kind": "subject-failure", "what": str(exc).split(":")[0][:60]}, str(exc))],
+                             False, ["subject-failure"])
     except Exception:
         if not TIMED_OUT[0]:
             raise
